@@ -68,6 +68,9 @@
 
 mod bucket;
 mod entry;
+#[cfg(libp2p_verif)]
+#[doc(hidden)]
+pub mod verif_kad_kb;
 #[allow(clippy::ptr_offset_with_cast)]
 #[allow(clippy::assign_op_pattern)]
 mod key;
